@@ -3,10 +3,11 @@ package main
 
 import (
 	"flag"
-	"runtime/pprof"
 	"fmt"
 	"os"
+	"runtime/pprof"
 	"strconv"
+	"time"
 
 	"verif/checks"
 	"verif/internal/evid"
@@ -49,6 +50,17 @@ func main() {
 		f, _ := os.Create(pf)
 		pprof.StartCPUProfile(f)
 		defer pprof.StopCPUProfile()
+	}
+	if pf := os.Getenv("VERIF_MEMPROFILE"); pf != "" {
+		go func() {
+			for {
+				time.Sleep(30 * time.Second)
+				if f, err := os.Create(pf); err == nil {
+					pprof.WriteHeapProfile(f)
+					f.Close()
+				}
+			}
+		}()
 	}
 	ck.Run(c)
 	if ck.Race {
